@@ -295,6 +295,30 @@ func fieldCases() []fieldCase {
 	nested("actor", actor, []string{"outbox"}, "totalItems", "type")
 	nested("activity", activity, []string{"actor"}, "name", "preferredUsername")
 	nested("activity", activity, []string{"object"}, "name", "content", "published")
+	// the language-mapped spellings of the text properties, on documents that lack the plain
+	// ones (whether servitor looks at them or not, nothing they carry may reach the screen raw)
+	for _, mt := range []string{"text/plain", "text/gemini", "text/html", "text/markdown", ""} {
+		mt := mt
+		without := func(base func() M, drop ...string) func() M {
+			return func() M {
+				d := base()
+				for _, k := range drop {
+					delete(d, k)
+				}
+				if mt == "" {
+					delete(d, "mediaType")
+				} else {
+					d["mediaType"] = mt
+				}
+				return d
+			}
+		}
+		for _, k := range []string{"contentMap", "summaryMap", "nameMap"} {
+			k := k
+			out = append(out, fieldCase{"post-language-maps:" + mt, without(post, "content", "name", "summary"), k + ".en", func(d M, v any) { d[k] = M{"en": v, "und": v} }})
+			out = append(out, fieldCase{"actor-language-maps:" + mt, without(actor, "summary", "name"), k + ".en", func(d M, v any) { d[k] = M{"en": v} }})
+		}
+	}
 	return out
 }
 
